@@ -6,6 +6,16 @@ ids = [json.loads(l)["id"] for l in open(os.path.join(HERE, "properties.jsonl"))
 
 # id -> (category, technique, level text, level note, design ref)
 CLAIMED = {
+ "C01": ("exploration",
+         "stateful property-based testing: generated group histories (proptest op sequences, 16 shards) with N-way agreement and cross-decrypt oracles",
+         "Random group histories over every proposal kind (by reference and by value), commits with/without path, external commits (new, rejoin, resync), identity changes, provider mixes, cipher suites and commit/encryption options; after every accepted commit all members are compared on context, roster, exported tree, authenticator, exported secrets, and every member's ciphertext is decrypted by every other member. Sampled histories, not exhaustive.",
+         "Providers' internal randomness is not seeded. Group size <= 12 (quick) / 24 (thorough), history length <= 26 / 70 ops.",
+         "DESIGN.md §4 C01"),
+ "C12": ("exploration",
+         "byte-level and structure-aware generated inputs (mutated IETF vectors + harvested library output + `arbitrary` values) against round-trip / re-encode / length / allocation oracles; exhaustive varint enumeration; libFuzzer target in the thorough tier",
+         "Every public decode entry point is fed random, mutated-valid, truncated and length-prefix-corrupted inputs; accepted values must re-encode to exactly the consumed bytes with the reported length, never panic and never allocate beyond 4096*len+1MiB; arbitrary structured values must report exact lengths; all 1- and 2-byte varint forms are enumerated against an RFC 9000 reference decoder.",
+         "Hash-map backed state types are compared by value and length, not bytes. A time/size-bounded search; absence of a crash is not proven.",
+         "DESIGN.md §4 C12"),
  "C20": ("exploration",
          "exhaustive enumeration of small sizes + seeded sampling of large sizes against a recursive reference model",
          "All tree-math functions are compared with the recursive RFC 9420 App. C definition for every node of every tree with 2^0..2^12 leaves (exhaustive, incl. out-of-tree indices and all leaf pairs up to 2^10 leaves) and on sampled nodes/pairs up to 2^24 leaves. The finite part the property names is enumerated completely; the rest is sampled.",
